@@ -678,12 +678,15 @@ def _parse_source_for_lambda(
     start_token = None
     source, lambda_line = _get_sourcelines(ast_source)
     first_line = lambda_line
+    # A lambda is looked for by `lambda` only, a function by `def` only: a lambda written inside a
+    # one-line function (or a function under a decorator that takes a lambda) is not that function.
+    keyword = "lambda" if getattr(ast_source, "__name__", None) == "<lambda>" else "def"
     t_stream = None
     while func_name is None:
         # Setup the tokenizer
         t_stream = _token_runner(source, lambda_line)
 
-        func_name, start_token = t_stream.find_identifier(["def", "lambda"])
+        func_name, start_token = t_stream.find_identifier([keyword])
 
         if start_token is None:
             return None
